@@ -26,6 +26,19 @@ import (
 var ocspClassNames = []string{"good/issuer", "revoked/issuer", "unknown-status/issuer", "transport-error"}
 var crlClassNames = []string{"clean", "lists-cert", "wrong-signer"}
 
+// ocspInconclusive: the class "no usable answer" has many members; which one stands for it depends on the source (certificate and URL
+// position), so that every table cell meets several of them without more executions: a transport error, the OCSP error responses
+// "unauthorized" and "tryLater", an answer whose next-update time has passed.
+var ocspInconclusive = []string{"transport-error", "ocsp-error-status-6", "good/next-update-passed", "ocsp-error-status-3"}
+
+// ocspRep returns the behaviour that stands for a class at a source.
+func ocspRep(cls int, src source) *ocspBehaviour {
+	if cls == 3 {
+		return ocspByName(ocspInconclusive[(src.cert+src.idx)%len(ocspInconclusive)])
+	}
+	return ocspByName(ocspClassNames[cls])
+}
+
 type srExpect struct {
 	server string
 	res    result.Result
@@ -274,7 +287,7 @@ func (s *c11Scenario) body(c *mc.Ctx) {
 			if src.idx >= len(ocspCls[src.cert]) {
 				return netsim.Answer{Status: 404}
 			}
-			return w.serveOCSP(src, ocspByName(ocspClassNames[ocspCls[src.cert][src.idx]]))
+			return w.serveOCSP(src, ocspRep(ocspCls[src.cert][src.idx], src))
 		}
 		if src.idx >= len(crlCls[src.cert]) {
 			return netsim.Answer{Status: 404}
